@@ -714,7 +714,7 @@ def short(name):
 
 class Facts:
     def __init__(self, data, config=''):
-        if data.get('schema') != 3:
+        if data.get('schema') != 4:
             raise RuntimeError('facts schema mismatch')
         self.config = config
         self.data = data
@@ -1143,3 +1143,68 @@ def _ret_class_call(t):
 
 def is_err_class(rc):
     return rc == 'Err'
+
+
+# --------------------------------------------------------------------------- decision paths (table extraction)
+
+
+def decision_paths(facts, fn, max_paths=20000, start=0):
+    """Enumerate acyclic entry→return paths of a (loop-free) function as
+    (conds, blocks): conds = [(Switch, label, succ)] in order.  Raises Cap when the
+    function has more than max_paths paths or contains a loop on a live path."""
+    out = []
+    sw_cache = {}
+
+    def rec(bi, conds, blocks, onpath):
+        if len(out) > max_paths:
+            raise Cap('too many paths in %s' % fn.name)
+        blocks = blocks + [bi]
+        t = fn.term(bi)
+        if t['k'] == 'ret':
+            out.append((conds, blocks))
+            return
+        succs = fn.succ[bi]
+        if not succs:
+            return  # diverges (panic / unreachable)
+        if t['k'] == 'sw':
+            sw = sw_cache.get(bi)
+            if sw is None:
+                sw = resolve_switch(facts, fn, bi)
+                sw_cache[bi] = sw
+            for s in succs:
+                if s in onpath:
+                    raise Cap('loop in %s' % fn.name)
+                rec(s, conds + [(sw, sw.labels.get(s), s)], blocks, onpath | {s})
+        else:
+            for s in succs:
+                if s in onpath:
+                    raise Cap('loop in %s' % fn.name)
+                rec(s, conds, blocks, onpath | {s})
+
+    import sys
+    old = sys.getrecursionlimit()
+    sys.setrecursionlimit(max(old, 10000))
+    try:
+        rec(start, [], [], {start})
+    finally:
+        sys.setrecursionlimit(old)
+    return out
+
+
+def const_str(text):
+    """Rust debug-printed string literal → python str (None if not a string literal)"""
+    if text is not None and text.startswith('promoted = '):
+        text = text[len('promoted = '):].split(' ; ')[0]
+    if text is None or len(text) < 2 or text[0] != '"' or text[-1] != '"':
+        return None
+    s = text[1:-1]
+    return s.replace('\\"', '"').replace('\\\\', '\\')
+
+
+def camel_to_kebab(s):
+    out = []
+    for i, c in enumerate(s):
+        if c.isupper() and i > 0:
+            out.append('-')
+        out.append(c.lower())
+    return ''.join(out)
